@@ -353,7 +353,7 @@ pub fn run_c01_c02(ctx: &mut Ctx, which: Which) {
         ctx,
         "walk_on_generated_successors",
         move || walk_strategy(t.pick(120, 200)),
-        t.pick(3_000, 90_000),
+        t.pick(24_000, 270_000),
         move |r, st| {
             let Some((start, moves)) = play_walk(r) else {
                 st.label("recipe_discarded");
@@ -370,7 +370,7 @@ pub fn run_c01_c02(ctx: &mut Ctx, which: Which) {
         ctx,
         "walk_promotion_rich",
         || (prop_oneof![(17usize..22).prop_map(Start::Corpus), placement_promo().prop_map(Start::Placement)], proptest::collection::vec(any::<u16>(), 0..12)).prop_map(|(start, choices)| WalkRecipe { start, choices }),
-        t.pick(4_000, 120_000),
+        t.pick(32_000, 360_000),
         move |r, st| {
             let Some((start, moves)) = play_walk(r) else {
                 st.label("recipe_discarded");
@@ -381,12 +381,12 @@ pub fn run_c01_c02(ctx: &mut Ctx, which: Which) {
         },
         walk_json,
     );
-    placement_family(ctx, which, "placement_general", placement_general, t.pick(40_000, 1_500_000));
-    placement_family(ctx, which, "placement_castle", placement_castle, t.pick(40_000, 1_500_000));
-    placement_family(ctx, which, "placement_ep", placement_ep, t.pick(40_000, 1_500_000));
-    placement_family(ctx, which, "placement_promo", placement_promo, t.pick(30_000, 1_000_000));
-    placement_family(ctx, which, "placement_checks", placement_checks, t.pick(40_000, 1_500_000));
-    placement_family(ctx, which, "placement_near_mate", placement_near_mate, t.pick(20_000, 500_000));
+    placement_family(ctx, which, "placement_general", placement_general, t.pick(240_000, 3_000_000));
+    placement_family(ctx, which, "placement_castle", placement_castle, t.pick(240_000, 3_000_000));
+    placement_family(ctx, which, "placement_ep", placement_ep, t.pick(240_000, 3_000_000));
+    placement_family(ctx, which, "placement_promo", placement_promo, t.pick(180_000, 2_000_000));
+    placement_family(ctx, which, "placement_checks", placement_checks, t.pick(240_000, 3_000_000));
+    placement_family(ctx, which, "placement_near_mate", placement_near_mate, t.pick(120_000, 1_000_000));
     // E1 complete
     run_enum(
         ctx,
@@ -404,7 +404,7 @@ pub fn run_c01_c02(ctx: &mut Ctx, which: Which) {
         |i| json!({"fen": e1_decode(i).map(|p| p.fen())}),
     );
     // E2: sampled by a fixed stride in quick, complete in thorough
-    let stride: u64 = t.pick(23, 1);
+    let stride: u64 = t.pick(5, 1);
     let offset = if stride > 1 { ctx.seed % stride } else { 0 };
     run_enum(
         ctx,
@@ -566,7 +566,7 @@ pub fn run_c13(ctx: &mut Ctx) {
         ctx,
         "capture_chains_below_walks",
         cap_strategy,
-        t.pick(30_000, 900_000),
+        t.pick(60_000, 1_800_000),
         |r, st| {
             let Some((start, moves)) = cap_moves(r) else {
                 st.label("recipe_discarded");
@@ -580,7 +580,7 @@ pub fn run_c13(ctx: &mut Ctx) {
             None => json!({"fen": null}),
         },
     );
-    for (name, strat_id, cases) in [("placement_promo", 0, t.pick(30_000, 600_000)), ("placement_ep", 1, t.pick(30_000, 600_000)), ("placement_general", 2, t.pick(30_000, 900_000))] {
+    for (name, strat_id, cases) in [("placement_promo", 0, t.pick(60_000, 1_200_000)), ("placement_ep", 1, t.pick(60_000, 1_200_000)), ("placement_general", 2, t.pick(60_000, 1_800_000))] {
         let f = |r: &PlacementRecipe, st: &mut Stats| {
             let Some(p) = build_placement(r) else {
                 st.label("recipe_discarded_both_in_check_or_adjacent");
